@@ -69,8 +69,8 @@ func init() {
 		if thorough {
 			nh, ncrc, nfiles, maxLen = 50, 65536, 200, 6000
 		}
-		return []CaseSet{genHeaders(r, nh, ncrc), genBursts(r, nfiles, maxLen, thorough), genAcceptedAnyReader(r, nfiles/2, maxLen), genHeaderMismatch(r, nfiles, maxLen), genVerdictSequences(r, nfiles, maxLen)},
-			"headers: random field values x {matching CRC, " + strconv.Itoa(ncrc) + " stored CRCs, every single-byte corruption of every header byte, illegal sizes 0-255} through Header.CheckIntegrity, DecodeHeader and CheckIntegrity(headerOnly) (verdicts must agree); bursts: valid files (corpus + generated, both header sizes) x every start bit x window lengths 1-16 x patterns outside header bytes 0 and 4-7, plus value-targeted overwrites of aligned byte pairs (zero, all ones, swapped, checksum of the prefix, complement, ...) at the header fields, header CRC, record start and file CRC, through CheckIntegrity and Decode (must both reject); files whose 14-byte header does not match its stored non-zero CRC while the trailing file CRC was recomputed to fit (only the header CRC can reject them): CheckIntegrity, Decode, DecodeHeader and DecodeHeaderAndFileID must all reject; accepted files through CheckIntegrity and Decode behind readers that deliver 1, 2, 3, 7, 13, 4095 … bytes per call, short reads and data-with-EOF (a file Decode accepts must pass CheckIntegrity whatever the reader); sequences of 4-14 integrity calls in one process (CheckIntegrity header-only and full, DecodeHeader, Decode) over valid files of all three header layouts and corrupted ones: every verdict must be what the same call gives alone", false
+		return []CaseSet{genHeaders(r, nh, ncrc), genBursts(r, nfiles, maxLen, thorough), genAcceptedAnyReader(r, nfiles/2, maxLen), genHeaderMismatch(r, nfiles, maxLen), genVerdictSequences(r, nfiles, maxLen), genFiles(r, "encoded-files", "enc", 6*nfiles, fileKnobs{maxGroup: 4, fieldPct: 25})},
+			"headers: random field values x {matching CRC, " + strconv.Itoa(ncrc) + " stored CRCs, every single-byte corruption of every header byte, illegal sizes 0-255} through Header.CheckIntegrity, DecodeHeader and CheckIntegrity(headerOnly) (verdicts must agree); bursts: valid files (corpus + generated, both header sizes) x every start bit x window lengths 1-16 x patterns outside header bytes 0 and 4-7, plus value-targeted overwrites of aligned byte pairs (zero, all ones, swapped, checksum of the prefix, complement, ...) at the header fields, header CRC, record start and file CRC, through CheckIntegrity and Decode (must both reject); files whose 14-byte header does not match its stored non-zero CRC while the trailing file CRC was recomputed to fit (only the header CRC can reject them): CheckIntegrity, Decode, DecodeHeader and DecodeHeaderAndFileID must all reject; accepted files through CheckIntegrity and Decode behind readers that deliver 1, 2, 3, 7, 13, 4095 … bytes per call, short reads and data-with-EOF (a file Decode accepts must pass CheckIntegrity whatever the reader); sequences of 4-14 integrity calls in one process (CheckIntegrity header-only and full, DecodeHeader, Decode) over valid files of all three header layouts and corrupted ones: every verdict must be what the same call gives alone; Files through Encode in both byte orders and with both header sizes: what Encode writes must pass CheckIntegrity (full and header-only), Header.CheckIntegrity and Decode", false
 	}
 	propPost["C04"] = postC04
 }
@@ -277,6 +277,24 @@ func postC04(res *RunResult) {
 	for i, c := range res.Stats.cases {
 		out := res.Stats.impl[i]
 		switch res.Stats.setOf[i] {
+		case "encoded-files":
+			// a file that Encode produced passes every integrity check
+			parts := strings.Fields(out)
+			if len(parts) >= 2 && parts[0] == "ok" {
+				b, err := hex.DecodeString(parts[1])
+				if err != nil {
+					break
+				}
+				if e := fit.CheckIntegrity(bytes.NewReader(b), false); e != nil {
+					addViolation(res, c, out, "CheckIntegrity rejects what Encode wrote: "+e.Error())
+				} else if e := fit.CheckIntegrity(bytes.NewReader(b), true); e != nil {
+					addViolation(res, c, out, "CheckIntegrity(headerOnly) rejects what Encode wrote: "+e.Error())
+				} else if h, e := fit.DecodeHeader(bytes.NewReader(b)); e != nil || h.CheckIntegrity() != nil {
+					addViolation(res, c, out, "DecodeHeader / Header.CheckIntegrity reject the header Encode wrote")
+				} else if _, e := fit.Decode(bytes.NewReader(b)); e != nil && strings.Contains(e.Error(), "checksum") {
+					addViolation(res, c, out, "Decode rejects the checksum of what Encode wrote: "+e.Error())
+				}
+			}
 		case "header-crc-mismatch-file-crc-fits":
 			if dr, ok := parseDecRes(out); ok && dr.tag == "ok" {
 				addViolation(res, c, out, "a header whose stored non-zero CRC does not match its bytes was accepted (the file CRC fits)")
